@@ -107,17 +107,22 @@ static std::string dump(C& c, std::vector<const void*>& nodes)
             o << (first ? "" : ",") << id(&*it) << ":" << it->m_keyed_position.value()->first << ":" << it->m_value;
             first = false;
         }
-#elif KIND == 5
+#elif KIND == 4 || KIND == 5
+#if KIND == 4
+    auto& agelist = c.m_open_list;
+#else
+    auto& agelist = c.m_dynamic_age_list;
+#endif
     auto id = [&](const void* p) { return std::find(nodes.begin(), nodes.end(), p) - nodes.begin(); };
     o << " used=" << c.m_used_size << " list=";
     bool first = true;
-    for (auto it = c.m_dynamic_age_list.begin(); it != c.m_dynamic_age_list.end(); ++it)
+    for (auto it = agelist.begin(); it != agelist.end(); ++it)
     {
         o << (first ? "" : ",") << id(&*it);
         first = false;
     }
     o << " end=";
-    if (c.m_open_list_end == c.m_dynamic_age_list.end())
+    if (c.m_open_list_end == agelist.end())
         o << "E";
     else
         o << id(&*c.m_open_list_end);
@@ -140,10 +145,16 @@ static std::string dump(C& c, std::vector<const void*>& nodes)
     }
     o << " cells=";
     first = true;
-    for (auto it = c.m_dynamic_age_list.begin(); it != c.m_open_list_end; ++it)
+    for (auto it = agelist.begin(); it != c.m_open_list_end; ++it)
     {
         o << (first ? "" : ",") << id(&*it) << ":" << it->m_keyed_position->first << ":" << id(&*(it->m_lfu_position->second)) << ":"
-          << it->m_dynamic_age.time_since_epoch().count() << ":" << it->m_value;
+          <<
+#if KIND == 4
+            0
+#else
+            it->m_dynamic_age.time_since_epoch().count()
+#endif
+          << ":" << it->m_value;
         first = false;
     }
 #elif KIND == 6 || KIND == 7
@@ -274,6 +285,9 @@ int main(int argc, char** argv)
             std::vector<const void*> nodes;
 #if KIND == 2
             for (auto it = c->m_fifo_list.begin(); it != c->m_fifo_list.end(); ++it)
+                nodes.push_back(&*it);
+#elif KIND == 4
+            for (auto it = c->m_open_list.begin(); it != c->m_open_list.end(); ++it)
                 nodes.push_back(&*it);
 #elif KIND == 5
             for (auto it = c->m_dynamic_age_list.begin(); it != c->m_dynamic_age_list.end(); ++it)
